@@ -1,0 +1,453 @@
+// Verification hooks. Compiled only with the cargo feature `verif-hooks`;
+// read-only views of crate internals for an external verification harness.
+// Nothing here is used by the crate itself.
+
+#![allow(missing_docs)]
+
+use std::cell::RefCell;
+use std::collections::BTreeMap;
+
+use schemars::schema::Schema;
+use serde_json::{json, Value};
+
+use crate::type_entry::{
+    EnumTagType, StructProperty, StructPropertyRename, StructPropertyState, TypeEntry,
+    TypeEntryDetails, TypeEntryEnum, TypeEntryNewtype, TypeEntryNewtypeConstraints,
+    TypeEntryStruct, Variant, VariantDetails,
+};
+use crate::util::Case;
+use crate::{RefKey, TypeId, TypeSpace, TypeSpaceImpl};
+
+thread_local! {
+    static PRE_CYCLES: RefCell<Vec<Value>> = const { RefCell::new(Vec::new()) };
+}
+
+/// Called by `add_ref_types_impl` right before `break_cycles`.
+pub(crate) fn record_pre_cycles(ts: &TypeSpace, base_id: u64, def_len: u64) {
+    let snap = json!({
+        "base_id": base_id,
+        "def_len": def_len,
+        "space": ts.verif_dump(),
+    });
+    PRE_CYCLES.with(|p| p.borrow_mut().push(snap));
+}
+
+/// Take (and clear) the snapshots recorded before each `break_cycles` call
+/// on this thread.
+pub fn take_pre_cycles() -> Vec<Value> {
+    PRE_CYCLES.with(|p| std::mem::take(&mut *p.borrow_mut()))
+}
+
+fn case(pascal: bool) -> Case {
+    if pascal {
+        Case::Pascal
+    } else {
+        Case::Snake
+    }
+}
+
+pub fn sanitize(input: &str, pascal: bool) -> String {
+    crate::util::sanitize(input, case(pascal))
+}
+
+pub fn recase(input: &str, pascal: bool) -> (String, Option<String>) {
+    crate::util::recase(input, case(pascal))
+}
+
+fn defs_of(defs: &BTreeMap<String, Schema>) -> BTreeMap<RefKey, Schema> {
+    defs.iter()
+        .map(|(k, v)| (RefKey::Def(k.clone()), v.clone()))
+        .collect()
+}
+
+pub fn merge_all(schemas: &[Schema], defs: &BTreeMap<String, Schema>) -> Schema {
+    crate::merge::merge_all(schemas, &defs_of(defs))
+}
+
+pub fn all_mutually_exclusive(schemas: &[Schema], defs: &BTreeMap<String, Schema>) -> bool {
+    crate::util::all_mutually_exclusive(schemas, &defs_of(defs))
+}
+
+pub fn schema_value_validate(
+    schema: &Schema,
+    value: &Value,
+    defs: &BTreeMap<String, Schema>,
+) -> Result<(), String> {
+    crate::validate::schema_value_validate(schema, value, &defs_of(defs))
+}
+
+fn impl_name(i: &TypeSpaceImpl) -> &'static str {
+    match i {
+        TypeSpaceImpl::FromStr => "FromStr",
+        TypeSpaceImpl::Display => "Display",
+        TypeSpaceImpl::Default => "Default",
+    }
+}
+
+fn dump_props(props: &[StructProperty]) -> Value {
+    Value::Array(
+        props
+            .iter()
+            .map(|p| {
+                json!({
+                    "name": p.name,
+                    "rename": match &p.rename {
+                        StructPropertyRename::None => json!({"k": "none"}),
+                        StructPropertyRename::Rename(s) => json!({"k": "rename", "s": s}),
+                        StructPropertyRename::Flatten => json!({"k": "flatten"}),
+                    },
+                    "state": match &p.state {
+                        StructPropertyState::Required => json!({"k": "required"}),
+                        StructPropertyState::Optional => json!({"k": "optional"}),
+                        StructPropertyState::Default(v) => json!({"k": "default", "v": v.0}),
+                    },
+                    "type_id": p.type_id.0,
+                })
+            })
+            .collect(),
+    )
+}
+
+fn dump_variants(variants: &[Variant]) -> Value {
+    Value::Array(
+        variants
+            .iter()
+            .map(|v| {
+                json!({
+                    "raw": v.raw_name,
+                    "ident": v.ident_name,
+                    "details": match &v.details {
+                        VariantDetails::Simple => json!({"k": "simple"}),
+                        VariantDetails::Item(id) => json!({"k": "item", "id": id.0}),
+                        VariantDetails::Tuple(ids) => json!({
+                            "k": "tuple",
+                            "ids": ids.iter().map(|i| i.0).collect::<Vec<_>>()
+                        }),
+                        VariantDetails::Struct(props) => json!({
+                            "k": "struct",
+                            "props": dump_props(props)
+                        }),
+                    },
+                })
+            })
+            .collect(),
+    )
+}
+
+fn native_impls(e: &TypeEntry) -> Vec<&'static str> {
+    [
+        TypeSpaceImpl::FromStr,
+        TypeSpaceImpl::Display,
+        TypeSpaceImpl::Default,
+    ]
+    .iter()
+    .filter(|i| e.has_impl_native(**i))
+    .map(impl_name)
+    .collect()
+}
+
+fn dump_entry(e: &TypeEntry) -> Value {
+    let mut v = match &e.details {
+        TypeEntryDetails::Enum(TypeEntryEnum {
+            name,
+            rename,
+            default,
+            tag_type,
+            variants,
+            deny_unknown_fields,
+            bespoke_impls,
+            ..
+        }) => json!({
+            "kind": "enum",
+            "name": name,
+            "rename": rename,
+            "default": default.as_ref().map(|d| json!({"v": d.0})),
+            "tag": match tag_type {
+                EnumTagType::External => json!({"k": "external"}),
+                EnumTagType::Internal { tag } => json!({"k": "internal", "tag": tag}),
+                EnumTagType::Adjacent { tag, content } =>
+                    json!({"k": "adjacent", "tag": tag, "content": content}),
+                EnumTagType::Untagged => json!({"k": "untagged"}),
+            },
+            "variants": dump_variants(variants),
+            "deny": deny_unknown_fields,
+            "bespoke": bespoke_impls.iter().map(|b| format!("{:?}", b)).collect::<Vec<_>>(),
+        }),
+        TypeEntryDetails::Struct(TypeEntryStruct {
+            name,
+            rename,
+            default,
+            properties,
+            deny_unknown_fields,
+            ..
+        }) => json!({
+            "kind": "struct",
+            "name": name,
+            "rename": rename,
+            "default": default.as_ref().map(|d| json!({"v": d.0})),
+            "props": dump_props(properties),
+            "deny": deny_unknown_fields,
+        }),
+        TypeEntryDetails::Newtype(TypeEntryNewtype {
+            name,
+            rename,
+            default,
+            type_id,
+            constraints,
+            ..
+        }) => json!({
+            "kind": "newtype",
+            "name": name,
+            "rename": rename,
+            "default": default.as_ref().map(|d| json!({"v": d.0})),
+            "type_id": type_id.0,
+            "constraints": match constraints {
+                TypeEntryNewtypeConstraints::None => json!({"k": "none"}),
+                TypeEntryNewtypeConstraints::EnumValue(vs) => json!({
+                    "k": "enum", "values": vs.iter().map(|w| w.0.clone()).collect::<Vec<_>>()
+                }),
+                TypeEntryNewtypeConstraints::DenyValue(vs) => json!({
+                    "k": "deny", "values": vs.iter().map(|w| w.0.clone()).collect::<Vec<_>>()
+                }),
+                TypeEntryNewtypeConstraints::String { max_length, min_length, pattern } => json!({
+                    "k": "string", "max": max_length, "min": min_length, "pattern": pattern
+                }),
+            },
+        }),
+        TypeEntryDetails::Native(n) => json!({
+            "kind": "native",
+            "type_name": n.type_name,
+            "impls": native_impls(e),
+            "params": n.parameters.iter().map(|i| i.0).collect::<Vec<_>>(),
+        }),
+        TypeEntryDetails::Option(id) => json!({"kind": "option", "id": id.0}),
+        TypeEntryDetails::Box(id) => json!({"kind": "box", "id": id.0}),
+        TypeEntryDetails::Vec(id) => json!({"kind": "vec", "id": id.0}),
+        TypeEntryDetails::Map(k, v) => json!({"kind": "map", "key": k.0, "value": v.0}),
+        TypeEntryDetails::Set(id) => json!({"kind": "set", "id": id.0}),
+        TypeEntryDetails::Array(id, n) => json!({"kind": "array", "id": id.0, "len": n}),
+        TypeEntryDetails::Tuple(ids) => json!({
+            "kind": "tuple", "ids": ids.iter().map(|i| i.0).collect::<Vec<_>>()
+        }),
+        TypeEntryDetails::Unit => json!({"kind": "unit"}),
+        TypeEntryDetails::Boolean => json!({"kind": "boolean"}),
+        TypeEntryDetails::Integer(n) => json!({"kind": "integer", "name": n}),
+        TypeEntryDetails::Float(n) => json!({"kind": "float", "name": n}),
+        TypeEntryDetails::String => json!({"kind": "string"}),
+        TypeEntryDetails::JsonValue => json!({"kind": "json"}),
+        TypeEntryDetails::Reference(id) => json!({"kind": "reference", "id": id.0}),
+    };
+    v.as_object_mut().unwrap().insert(
+        "extra_derives".to_string(),
+        json!(e.extra_derives.iter().collect::<Vec<_>>()),
+    );
+    v
+}
+
+impl TypeEntry {
+    fn has_impl_native(&self, i: TypeSpaceImpl) -> bool {
+        match &self.details {
+            // Only consults the native's own impl list; never recurses.
+            TypeEntryDetails::Native(_) => self.has_impl(&TypeSpace::default(), i),
+            _ => false,
+        }
+    }
+}
+
+fn ref_key_str(k: &RefKey) -> String {
+    match k {
+        RefKey::Root => "#".to_string(),
+        RefKey::Def(s) => format!("#/{}", s),
+    }
+}
+
+impl TypeSpace {
+    /// JSON dump of the whole type space (ids, entries, indexes, flags).
+    pub fn verif_dump(&self) -> Value {
+        json!({
+            "next_id": self.next_id,
+            "entries": self.id_to_entry.iter()
+                .map(|(id, e)| (id.0.to_string(), dump_entry(e)))
+                .collect::<serde_json::Map<_, _>>(),
+            "name_to_id": self.name_to_id.iter()
+                .map(|(n, id)| (n.clone(), json!(id.0)))
+                .collect::<serde_json::Map<_, _>>(),
+            "ref_to_id": self.ref_to_id.iter()
+                .map(|(k, id)| (ref_key_str(k), json!(id.0)))
+                .collect::<serde_json::Map<_, _>>(),
+            "type_to_id": self.type_to_id.values().map(|i| i.0).collect::<Vec<_>>(),
+            "definitions": self.definitions.keys().map(ref_key_str).collect::<Vec<_>>(),
+            "uses": {
+                "chrono": self.uses_chrono,
+                "uuid": self.uses_uuid,
+                "serde_json": self.uses_serde_json,
+                "regress": self.uses_regress,
+            },
+            "defaults": self.defaults.iter().map(|d| format!("{:?}", d)).collect::<Vec<_>>(),
+            "settings": {
+                "type_mod": self.settings.type_mod,
+                "extra_derives": self.settings.extra_derives,
+                "struct_builder": self.settings.struct_builder,
+                "map_type": self.settings.map_type.to_string(),
+                "unknown_crates": format!("{:?}", self.settings.unknown_crates),
+                "crates": self.settings.crates.iter()
+                    .map(|(k, v)| (k.clone(), json!(format!("{:?}", v))))
+                    .collect::<serde_json::Map<_, _>>(),
+                "patch": self.settings.patch.iter()
+                    .map(|(k, v)| (k.clone(), json!(format!("{:?}", v))))
+                    .collect::<serde_json::Map<_, _>>(),
+                "replace": self.settings.replace.iter()
+                    .map(|(k, v)| (k.clone(), json!(format!("{:?}", v))))
+                    .collect::<serde_json::Map<_, _>>(),
+                "convert": self.settings.convert.iter()
+                    .map(|c| json!({"schema": c.schema, "type_name": c.type_name,
+                                    "impls": c.impls.iter().map(impl_name).collect::<Vec<_>>()}))
+                    .collect::<Vec<_>>(),
+            },
+        })
+    }
+
+    /// `validate_value` of the entry `id` on `value`: Ok(kind) / Err(msg).
+    pub fn verif_validate_value(&self, id: &TypeId, value: &Value) -> Result<String, String> {
+        let e = self.id_to_entry.get(id).ok_or("no such id")?;
+        e.validate_value(self, value)
+            .map(|k| format!("{:?}", k))
+            .map_err(|e| e.to_string())
+    }
+
+    /// `output_value` of the entry `id` on `value` rendered as token text.
+    pub fn verif_output_value(&self, id: &TypeId, value: &Value) -> Option<String> {
+        let e = self.id_to_entry.get(id)?;
+        e.output_value(self, value, &quote::quote! {})
+            .map(|t| t.to_string())
+    }
+
+    /// `has_impl` by id.
+    pub fn verif_has_impl(&self, id: &TypeId, which: &str) -> Option<bool> {
+        let e = self.id_to_entry.get(id)?;
+        let w = match which {
+            "FromStr" => TypeSpaceImpl::FromStr,
+            "Display" => TypeSpaceImpl::Display,
+            _ => TypeSpaceImpl::Default,
+        };
+        Some(e.has_impl(self, w))
+    }
+
+    /// Raw id of a `TypeId`.
+    pub fn verif_id(id: &TypeId) -> u64 {
+        id.0
+    }
+
+    /// `TypeId` from a raw id.
+    pub fn verif_type_id(raw: u64) -> TypeId {
+        TypeId(raw)
+    }
+
+    /// Build a synthetic type space from a graph description, run
+    /// `break_cycles(lo..hi)` on it and return the dump.
+    ///
+    /// `desc = {"next_id": n, "lo": a, "hi": b, "nodes": {id: node}}` where a
+    /// node is `{"kind": "struct"|"newtype"|"enum"|"option"|"array"|"tuple"|
+    /// "box"|"vec"|"set"|"map"|"leaf", ...}` in the shape `verif_dump` prints.
+    pub fn verif_break_cycles_graph(desc: &Value) -> Value {
+        let mut ts = TypeSpace::default();
+        let dummy = Schema::Bool(true);
+        let ids = |v: &Value| -> Vec<TypeId> {
+            v.as_array()
+                .map(|a| a.iter().map(|x| TypeId(x.as_u64().unwrap())).collect())
+                .unwrap_or_default()
+        };
+        let props = |v: &Value| -> Vec<StructProperty> {
+            v.as_array()
+                .map(|a| {
+                    a.iter()
+                        .enumerate()
+                        .map(|(i, x)| StructProperty {
+                            name: format!("p{}", i),
+                            rename: StructPropertyRename::None,
+                            state: StructPropertyState::Required,
+                            description: None,
+                            type_id: TypeId(x.as_u64().unwrap()),
+                        })
+                        .collect()
+                })
+                .unwrap_or_default()
+        };
+        for (id, n) in desc["nodes"].as_object().unwrap() {
+            let id = TypeId(id.parse::<u64>().unwrap());
+            let name = format!("T{}", id.0);
+            let sw = crate::type_entry::verif_schema_wrapper(dummy.clone());
+            let details = match n["kind"].as_str().unwrap() {
+                "struct" => TypeEntryDetails::Struct(TypeEntryStruct {
+                    name,
+                    rename: None,
+                    description: None,
+                    default: None,
+                    properties: props(&n["props"]),
+                    deny_unknown_fields: false,
+                    schema: sw,
+                }),
+                "newtype" => TypeEntryDetails::Newtype(TypeEntryNewtype {
+                    name,
+                    rename: None,
+                    description: None,
+                    default: None,
+                    type_id: TypeId(n["id"].as_u64().unwrap()),
+                    constraints: TypeEntryNewtypeConstraints::None,
+                    schema: sw,
+                }),
+                "enum" => TypeEntryDetails::Enum(TypeEntryEnum {
+                    name,
+                    rename: None,
+                    description: None,
+                    default: None,
+                    tag_type: EnumTagType::External,
+                    variants: n["variants"]
+                        .as_array()
+                        .unwrap()
+                        .iter()
+                        .enumerate()
+                        .map(|(i, v)| Variant {
+                            raw_name: format!("v{}", i),
+                            ident_name: Some(format!("V{}", i)),
+                            description: None,
+                            details: match v["k"].as_str().unwrap() {
+                                "simple" => VariantDetails::Simple,
+                                "item" => VariantDetails::Item(TypeId(v["id"].as_u64().unwrap())),
+                                "tuple" => VariantDetails::Tuple(ids(&v["ids"])),
+                                _ => VariantDetails::Struct(props(&v["props"])),
+                            },
+                        })
+                        .collect(),
+                    deny_unknown_fields: false,
+                    bespoke_impls: Default::default(),
+                    schema: sw,
+                }),
+                "option" => TypeEntryDetails::Option(TypeId(n["id"].as_u64().unwrap())),
+                "box" => TypeEntryDetails::Box(TypeId(n["id"].as_u64().unwrap())),
+                "vec" => TypeEntryDetails::Vec(TypeId(n["id"].as_u64().unwrap())),
+                "set" => TypeEntryDetails::Set(TypeId(n["id"].as_u64().unwrap())),
+                "array" => TypeEntryDetails::Array(
+                    TypeId(n["id"].as_u64().unwrap()),
+                    n["len"].as_u64().unwrap_or(2) as usize,
+                ),
+                "map" => TypeEntryDetails::Map(
+                    TypeId(n["key"].as_u64().unwrap()),
+                    TypeId(n["value"].as_u64().unwrap()),
+                ),
+                "tuple" => TypeEntryDetails::Tuple(ids(&n["ids"])),
+                _ => TypeEntryDetails::String,
+            };
+            let entry: TypeEntry = details.into();
+            if let Some(nm) = entry.name() {
+                ts.name_to_id.insert(nm.clone(), id.clone());
+            } else {
+                ts.type_to_id.insert(entry.details.clone(), id.clone());
+            }
+            ts.id_to_entry.insert(id, entry);
+        }
+        ts.next_id = desc["next_id"].as_u64().unwrap();
+        ts.break_cycles(desc["lo"].as_u64().unwrap()..desc["hi"].as_u64().unwrap());
+        ts.verif_dump()
+    }
+}
